@@ -60,6 +60,7 @@ fn main() {
     eprintln!("MACHINERY a call made alone is null: {:?}", alone);
     std::process::exit(2);
   }
+  let started = std::time::Instant::now();
   let executions = Arc::new(AtomicU64::new(0));
   let traces: Arc<Mutex<BTreeSet<Vec<u8>>>> = Arc::new(Mutex::new(BTreeSet::new()));
   let outcomes: Arc<Mutex<BTreeSet<String>>> = Arc::new(Mutex::new(BTreeSet::new()));
@@ -137,6 +138,7 @@ fn main() {
       }
     });
   }
+  println!("ELAPSED {}", started.elapsed().as_secs());
   println!("EXECUTIONS {}", executions.load(Ordering::Relaxed));
   println!("TRACES {}", traces.lock().unwrap().len());
   println!("OUTCOMES {}", outcomes.lock().unwrap().len());
